@@ -190,7 +190,9 @@ func (p *progGen) node(b *strings.Builder, depth int) {
 	p.budget--
 	en := p.enabled()
 	c := "text"
-	if len(en) > 0 {
+	// a third of the nodes is literal text (what TrimBlocks/LStripBlocks, spaceless and the
+	// writers act on); the rest is spread over the enabled constructs
+	if len(en) > 0 && p.g.Draw(3) != 0 {
 		c = en[p.g.Draw(len(en))]
 	}
 	if depth >= 4 {
@@ -272,6 +274,10 @@ func (p *progGen) node(b *strings.Builder, depth int) {
 		b.WriteString("{% include lzv")
 		p.includeTail(b)
 	case "big":
+		if p.g.Draw(6) == 0 {
+			b.WriteString("{{ huge }}") // > 1 MiB of output in one go
+			return
+		}
 		fmt.Fprintf(b, "{{ bigs%s }}", p.pick([]string{"", "|length", "|upper", "|truncatechars:20"}))
 	case "recmacro":
 		if p.inMacro || p.fileIdx >= 0 {
@@ -372,7 +378,10 @@ func (p *progGen) node(b *strings.Builder, depth int) {
 		fmt.Fprintf(b, "{{ %s(%s) }}", m, p.strE())
 	case "import":
 		p.use("import")
-		if p.g.Draw(2) == 0 {
+		if p.g.Draw(3) == 0 {
+			// an imported macro that reads the caller's context without being handed it
+			b.WriteString(`{% import "macros.tpl" m_c %}{{ m_c() }}`)
+		} else if p.g.Draw(2) == 0 {
 			b.WriteString(`{% import "macros.tpl" m_a, m_b as mbx %}`)
 			fmt.Fprintf(b, "{{ m_a(%s) }}{{ mbx(%s, %s) }}", p.strE(), p.strE(), p.strE())
 		} else {
@@ -553,7 +562,8 @@ func GenProgram(g *Tape, size int) *ProgSpec {
 	sp.OptsOnTemplate = (sp.TrimBlocks || sp.LStripBlocks) && g.Draw(3) == 0
 	sp.Files["raw.txt"] = "RAW {{ not parsed }}\n"
 	sp.Files["macros.tpl"] = `{% macro m_a(x) export %}[{{ x }}]{% endmacro %}` +
-		`{% macro m_b(x, y="d") export %}({{ x }}{{ y() }}{{ y }}{% if x %}{{ x|upper }}{% endif %}){% endmacro %}`
+		`{% macro m_b(x, y="d") export %}({{ x }}{{ y() }}{{ y }}{% if x %}{{ x|upper }}{% endif %}){% endmacro %}` +
+		`{% macro m_c() export %}<ctx:{{ s1 }}|{{ n1 }}|{{ glob }}>{% endmacro %}`
 	// include files, innermost first so that budgets are independent
 	for k := 1; k >= 0; k-- {
 		var b strings.Builder
@@ -581,6 +591,12 @@ func GenProgram(g *Tape, size int) *ProgSpec {
 		bb.WriteString("{% endblock %}|{% block b2 %}base-b2{{ y() }}{% endblock %}]\n")
 		sp.Files["base.tpl"] = bb.String()
 		sp.Blocks = []string{"b1", "b2"}
+		withComp := g.Draw(3) == 0
+		if withComp {
+			// a component that is included by the page and built on the same base (nothing
+			// the base itself can reach includes it: no cycle)
+			sp.Files["comp.tpl"] = `{% extends "base.tpl" %}{% block b2 %}(comp-b2:{{ iv }}{{ y() }}){% endblock %}`
+		}
 		p.budget = size
 		parent := "base.tpl"
 		threeLevel := g.Draw(2) == 1
@@ -603,7 +619,9 @@ func GenProgram(g *Tape, size int) *ProgSpec {
 			p.body(&mb, 1)
 			mb.WriteString("{% endblock %}")
 		}
-		if g.Draw(2) == 0 {
+		if withComp {
+			mb.WriteString(`{% block b2 %}child-b2:{% include "comp.tpl" with iv=s1 %}{{ y() }}{{ block.Super }}{% endblock b2 %}`)
+		} else if g.Draw(2) == 0 {
 			mb.WriteString("{% block b2 %}child-b2:")
 			p.body(&mb, 1)
 			mb.WriteString("{{ block.Super|upper }}{% endblock b2 %}")
@@ -684,6 +702,8 @@ var bigStrings = func() [3]string {
 	return [3]string{mk(3 << 10), mk(40 << 10), mk(70 << 10)}
 }()
 
+var hugeString = strings.Repeat("0123456789abcdef<&>\n", (1200<<10)/20)
+
 type simStringer struct{ s string }
 
 func (s simStringer) String() string { return "Stringer(" + s.s + ")" }
@@ -707,7 +727,7 @@ func (w *World) BuildCtx(d CtxDesc) pongo2.Context {
 	st := &simUser{Name: []string{"Ann", "B&b", "Çé"}[v], Age: []int{30, 0, 7}[v], Tags: [][]string{{"t1", "t2", "t2"}, {}, {"z", "a"}}[v], Next: next, w: w}
 	ctx := pongo2.Context{
 		"s1":        []string{"hello <b>&", "wörld", ""}[v],
-		"s2":        []string{"abc", "x y z", "<i>"}[v],
+		"s2":        []string{"abc", "x\xffy z\xc3", "<i>"}[v], // variant 1 is not valid UTF-8
 		"n1":        []int{3, 0, 7}[v],
 		"n2":        []any{5, 2, -1.5}[v],
 		"z":         0,
@@ -722,6 +742,7 @@ func (w *World) BuildCtx(d CtxDesc) pongo2.Context {
 		"poly":      []any{&polyMethods{"PM"}, map[string]any{"Name": "mapname<", "Title": "maptitle", "Kids": []string{"k1"}}, polyFields{Name: "fieldname", Nick: "nick&", Kids: []int{7, 8}}}[v],
 		"lzv":       []string{"inc0.tpl", "inc1.tpl", "inc0.tpl"}[v],
 		"bigs":      bigStrings[v],
+		"huge":      hugeString,
 		"rdepth":    []int{3, 300, 600}[v],
 		"lz0":       "inc0.tpl",
 		"lz1":       "inc1.tpl",
